@@ -276,6 +276,24 @@ func (r *Runner) Deliver(m *TxMeta) bool {
 	}
 	r.logf("  tx %s type=%s from=%s gas=%d pert=%q -> code=%d %s", m.Kind, m.Type, m.Sender.String()[:10], m.GasCoin, m.Perturbed, resp.Code, trunc(resp.Log, 90))
 	if !ok {
+		// context of the panicking transaction for the report (reads only balances and reserves)
+		func() {
+			defer func() { _ = recover() }()
+			cs := r.N.App.CurrentState()
+			ctx := fmt.Sprintf(" [tx %s data=%+v gasCoin=%d payer balance(gas)=%s", m.Kind, m.Data, m.GasCoin, cs.Accounts().GetBalance(m.Payer, m.GasCoin))
+			if r0, r1, _ := cs.Swap().SwapPool(m.GasCoin, 0); r0 != nil {
+				ctx += fmt.Sprintf(" pool(gas,base)=%s/%s", r0, r1)
+			}
+			pc := cs.Commission().GetCommissions()
+			ctx += fmt.Sprintf(" priceCoin=%d failedTx=%s", pc.Coin, pc.FailedTx)
+			if r0, r1, _ := cs.Swap().SwapPool(pc.Coin, 0); r0 != nil {
+				ctx += fmt.Sprintf(" pool(price,base)=%s/%s", r0, r1)
+			}
+			ctx += "]"
+			if n := len(r.N.Panics); n > 0 {
+				r.N.Panics[n-1].Value += ctx
+			}
+		}()
 		return false
 	}
 	if resp.Code == 0 {
